@@ -420,9 +420,10 @@ pub trait Prover {
             deep_composition_poly
         };
 
-        // make sure the degree of the DEEP composition polynomial is equal to trace polynomial
-        // degree minus 1.
-        assert_eq!(trace_length - 2, deep_composition_poly.degree());
+        // make sure the degree of the DEEP composition polynomial is at most trace polynomial
+        // degree minus 1 (it is smaller when all trace polynomials have less than maximal degree,
+        // e.g. for a constant or short-period trace)
+        assert!(deep_composition_poly.degree() <= trace_length - 2);
 
         // 5 ----- evaluate DEEP composition polynomial over LDE domain ---------------------------
         let deep_evaluations = {
@@ -430,7 +431,7 @@ pub trait Prover {
             let deep_evaluations = deep_composition_poly.evaluate(&domain);
             // we check the following condition in debug mode only because infer_degree is an
             // expensive operation
-            debug_assert_eq!(trace_length - 2, infer_degree(&deep_evaluations, domain.offset()));
+            debug_assert!(infer_degree(&deep_evaluations, domain.offset()) <= trace_length - 2);
 
             drop(span);
             deep_evaluations
